@@ -447,6 +447,209 @@ impl Iterator for Colex {
     }
 }
 
+// ---- consumption through the other Iterator entry points (nth / skip / step_by / by_ref + take /
+// last / count): every one must behave like the same operation on the independently enumerated list
+fn unrank_colex(set: u64, k: usize, mut idx: u128) -> Option<u64> {
+    let cards = cards_of(set);
+    if idx >= binom(cards.len() as u64, k as u64) {
+        return None;
+    }
+    let mut out = 0u64;
+    let mut hi = cards.len();
+    for i in (1..=k).rev() {
+        // largest c < hi with C(c, i) <= idx
+        let mut c = hi - 1;
+        while binom(c as u64, i as u64) > idx {
+            c -= 1;
+        }
+        out |= 1u64 << cards[c];
+        idx -= binom(c as u64, i as u64);
+        hi = c;
+    }
+    Some(out)
+}
+
+fn entry_points<T, I>(
+    run: &mut Run, rng: &mut Rng, name: &str, mk: &dyn Fn() -> I, conv: &dyn Fn(I::Item) -> T, e: &dyn Fn(u128) -> Option<T>, n: u128, period: u64, jmax: u64, full: bool,
+) where
+    T: PartialEq + std::fmt::Debug,
+    I: Iterator,
+{
+    // NB: the iterator under test is never wrapped in an adapter before the entry point is called
+    // (`Map` does not forward `nth`); items are converted afterwards
+    use std::panic::{catch_unwind, AssertUnwindSafe};
+    let mut check = |run: &mut Run, op: String, f: &mut dyn FnMut() -> Vec<Option<T>>, want: Vec<Option<T>>| {
+        run.evaluations += 1;
+        run.spec_checked += 1;
+        run.count(&format!("entry-point {}", op.split(' ').next().unwrap_or("")));
+        match catch_unwind(AssertUnwindSafe(|| f())) {
+            Err(_) => run.fail("iterator-entry-point-panics", &format!("{name}: {op}"), &format!("{want:?}"), "panic"),
+            Ok(got) => {
+                if got != want {
+                    run.fail("iterator-entry-point-differs-from-list", &format!("{name}: {op}"), &format!("{want:?} (same operation on the enumerated list)"), &format!("{got:?}"));
+                }
+            }
+        }
+    };
+    let b = period.max(1);
+    let mut ks: Vec<u64> = vec![0, 1, 2, b - 1, b, b + 1, 2 * b + 3, 3 * b + b / 2];
+    ks.push(rng.below(4 * b + 2));
+    ks.sort();
+    ks.dedup();
+    let mut js: Vec<u64> = vec![0, 1, b / 2 + 1, b + b / 3 + 1, 2 * b + 2];
+    js.push(rng.below(jmax.max(1)));
+    js.retain(|&j| j <= jmax);
+    js.sort();
+    js.dedup();
+    for &j in &js {
+        for &k in &ks {
+            // nth(k) after j items, then the item after it
+            check(run, format!("nth j={j} k={k}"), &mut || {
+                let mut it = mk();
+                for _ in 0..j { it.next(); }
+                let a = it.nth(k as usize).map(conv);
+                let b2 = it.next().map(conv);
+                vec![a, b2]
+            }, vec![e((j + k) as u128), e((j + k) as u128 + 1)]);
+        }
+        // take(j) through by_ref, then continue
+        check(run, format!("by_ref-take j={j}"), &mut || {
+            let mut it = mk();
+            let c = it.by_ref().take(j as usize).count();
+            let x = it.next().map(conv);
+            let y = it.next().map(conv);
+            let _ = c;
+            vec![x, y]
+        }, vec![e(j as u128), e(j as u128 + 1)]);
+        // step_by on the partially consumed iterator
+        for &s in &[1u64, 2, b.max(2), b + 1, 2 * b + 1] {
+            check(run, format!("step_by j={j} step={s}"), &mut || {
+                let mut it = mk();
+                for _ in 0..j { it.next(); }
+                it.by_ref().step_by(s as usize).take(4).map(|x| Some(conv(x))).collect()
+            }, (0..4u128).map(|i| e(j as u128 + i * s as u128)).filter(|x| x.is_some()).collect());
+        }
+        if full {
+            check(run, format!("count j={j}"), &mut || {
+                let mut it = mk();
+                for _ in 0..j { it.next(); }
+                let c = it.count() as u128;
+                vec![e(c + (j as u128).min(n)).or(None), e((c + (j as u128).min(n)).wrapping_sub(1))]
+            }, vec![None, e(n.wrapping_sub(1))]);
+            check(run, format!("last j={j}"), &mut || {
+                let mut it = mk();
+                for _ in 0..j { it.next(); }
+                vec![it.last().map(conv)]
+            }, vec![if (j as u128) < n { e(n - 1) } else { None }]);
+        }
+    }
+    for &k in &ks {
+        check(run, format!("skip k={k}"), &mut || {
+            let mut it = mk().skip(k as usize);
+            vec![it.next().map(conv), it.next().map(conv)]
+        }, vec![e(k as u128), e(k as u128 + 1)]);
+    }
+    // sharded workers: worker a of w takes items a, a+w, a+2w, ...; and chunking by nth
+    for &w in &[2u64, 3, 16, b.max(2), b + 1] {
+        let a = rng.below(w);
+        check(run, format!("skip-step_by a={a} w={w}"), &mut || {
+            mk().skip(a as usize).step_by(w as usize).take(5).map(|x| Some(conv(x))).collect()
+        }, (0..5u128).map(|i| e(a as u128 + i * w as u128)).filter(|x| x.is_some()).collect());
+        check(run, format!("chunk-nth w={w}"), &mut || {
+            let mut it = mk();
+            (0..4).map(|_| it.nth(w as usize - 1).map(conv)).collect()
+        }, (1..=4u128).map(|i| e(i * w as u128 - 1)).collect());
+    }
+    // size_hint is not part of the property; deviations are recorded as notes
+    if let Ok((lo, hi)) = catch_unwind(AssertUnwindSafe(|| mk().size_hint())) {
+        if n <= usize::MAX as u128 && (lo as u128 > n || hi.map(|h| (h as u128) < n).unwrap_or(false)) {
+            if run.notes.len() < 12 {
+                run.notes.push(format!("size_hint of a fresh {name} is ({lo}, {hi:?}) but it yields {n} items"));
+            }
+        }
+    }
+}
+
+fn entry_point_cases(run: &mut Run, rng: &mut Rng, thorough: bool) {
+    let deck = full_deck();
+    let all52: u64 = (1u64 << 52) - 1;
+    // HandIterator
+    for (k, free_n) in [(1usize, 9usize), (2, 7), (3, 9), (2, 52), (5, 12), (4, 30)] {
+        let free = rng.cards(free_n, deck);
+        let mask = all52 & !free;
+        let list = brute_subsets(free & deck, k);
+        let n = list.len() as u128;
+        entry_points(run, rng, &format!("HandIterator k={k} mask={mask}"),
+            &|| HandIterator::from((k, Hand::from(mask))), &|h| u64::from(h),
+            &|i| list.get(i as usize).cloned(), n, 1, (n as u64).min(40), true);
+    }
+    // ObservationIterator: the list is indexable (pocket = index / boards, board = index % boards)
+    let ncards = deck.count_ones() as u64;
+    for st in 0..(if thorough { 4usize } else { 3 }) {
+        let nb = n_board(st);
+        let boards = binom(ncards - 2, nb as u64);
+        let n = binom(ncards, 2) * boards;
+        let e = move |i: u128| -> Option<(u64, u64)> {
+            if i >= n { return None; }
+            let p = unrank_colex(deck, 2, i / boards)?;
+            let b = unrank_colex(deck & !p, nb, i % boards)?;
+            Some((p, b))
+        };
+        entry_points(run, rng, &format!("ObservationIterator street {st}"),
+            &|| ObservationIterator::from(street_of(st)), &|o: Observation| (u64::from(*o.pocket()), u64::from(*o.public())),
+            &e, n, boards as u64, (3 * boards as u64).min(700_000), st <= 1);
+    }
+    // IsomorphismIterator: pre-flop completely, flop against the own enumeration of the first classes
+    for st in 0..2usize {
+        let nb = n_board(st);
+        let limit = if st == 0 { usize::MAX } else { 60_000 };
+        let mut list: Vec<(u64, u64)> = vec![];
+        'outer: for p in Colex::new(deck, 2) {
+            for b in Colex::new(deck & !p, nb) {
+                if spec_is_canonical(p, b) {
+                    list.push((p, b));
+                    if list.len() >= limit { break 'outer; }
+                }
+            }
+        }
+        let n = if st == 0 { list.len() as u128 } else { u128::MAX };
+        let len = list.len() as u128;
+        // boards per pocket as the period: jumps that cross pockets of the underlying observation iterator
+        entry_points(run, rng, &format!("IsomorphismIterator street {st}"),
+            &|| IsomorphismIterator::from(street_of(st)), &|i| { let o = Observation::from(i); (u64::from(*o.pocket()), u64::from(*o.public())) },
+            &|i| if i < len { Some(list[i as usize]) } else { None }, n, if st == 0 { 7 } else { 3_000 }, if st == 0 { 100 } else { 9_000 }, st == 0);
+    }
+    // children()
+    for st in 0..3usize {
+        let pocket = rng.cards(2, deck);
+        let public = rng.cards(n_board(st), deck & !pocket);
+        let list: Vec<(u64, u64)> = brute_subsets(deck & !(pocket | public), n_reveal(st)).into_iter().map(|r| (pocket, public | r)).collect();
+        let n = list.len() as u128;
+        entry_points(run, rng, &format!("children of pocket {pocket} board {public}"),
+            &|| {
+                let ob = Observation::from((Hand::from(pocket), Hand::from(public)));
+                ob.children().collect::<Vec<_>>().into_iter()
+            }, &|c: Observation| (u64::from(*c.pocket()), u64::from(*c.public())),
+            &|i| list.get(i as usize).cloned(), n, 5, (n as u64).min(60), true);
+        // and directly on the borrowed iterator (no collect): nth / skip / step_by / last / count
+        run.evaluations += 1;
+        run.spec_checked += 1;
+        let got = catch(move || {
+            let ob = Observation::from((Hand::from(pocket), Hand::from(public)));
+            let f = |c: Observation| (u64::from(*c.pocket()), u64::from(*c.public()));
+            let a = { let mut it = ob.children(); it.next(); it.nth(3).map(f) };
+            let b = ob.children().skip(7).step_by(5).take(3).map(f).collect::<Vec<_>>();
+            let c = ob.children().last().map(f);
+            let d = { let mut it = ob.children(); it.by_ref().take(4).count(); it.count() };
+            (a, b, c, d)
+        });
+        let want = (list.get(4).cloned(), (0..3).filter_map(|i| list.get(7 + 5 * i).cloned()).collect::<Vec<_>>(), list.last().cloned(), list.len().saturating_sub(4));
+        if got.as_ref() != Some(&want) {
+            run.fail("iterator-entry-point-differs-from-list", &format!("children of pocket {pocket} board {public}: nth/skip/step_by/last/count"), &format!("{want:?}"), &format!("{got:?}"));
+        }
+    }
+}
+
 /// the first `n` items of the real IsomorphismIterator against an enumeration written here
 /// (own pocket and board loops in increasing order, own canonical-form test): item by item the
 /// yielded value must be the next canonical observation of that enumeration; additionally every
@@ -873,6 +1076,28 @@ fn main() {
             }
         }
     }
+    entry_point_cases(&mut run, &mut rng, thorough);
+    // model lines: nth(k) after j consumed items = item j + k of the model list
+    {
+        let ncards = full.count_ones() as u64;
+        for st in 0..3usize {
+            let b = binom(ncards - 2, n_board(st) as u64) as u64;
+            for (j, k) in [(0u64, 0u64), (b / 2 + 1, b), (b + 7, 2 * b + 3), (3, b - 1), (rng.below(2 * b + 1), rng.below(3 * b + 1))] {
+                let op = format!("obsnth {deck} {st} {j} {k}");
+                run.evaluations += 1;
+                let res = catch(move || {
+                    let mut it = ObservationIterator::from(street_of(st));
+                    for _ in 0..j { it.next(); }
+                    it.nth(k as usize).map(|o| (u64::from(*o.pocket()), u64::from(*o.public())))
+                });
+                match res {
+                    None => { run.line(&op, "panic"); run.fail("iterator-entry-point-panics", &op, "an observation", "panic"); }
+                    Some(Some((p, bd))) => run.line(&op, &format!("{p} {bd}")),
+                    Some(None) => run.line(&op, "none"),
+                }
+            }
+        }
+    }
     for (st, h) in heavy {
         let op = format!("niso {deck} {st}");
         run.evaluations += 1;
@@ -918,7 +1143,7 @@ fn main() {
 
     run.exhaustive = false;
     run.rule = format!(
-        "deck={deck}. hands: {} masks leaving 0..12 free cards (random, packed against bit 51, packed at the bottom, alternating, some with junk above bit 51) x k=0..4 as full lists, k=5/6/7 for {n5}/{n6}/{n7} of them (a case costs ~C(52,k) steps whatever the mask); {ncases} random masks leaving 13..52 free cards x random k<=7 and the unmasked deck as count+order checksum; k in {{47..53,63}} (short walks against the 52-bit boundary) as counts. observations: streets {:?} complete (count, order checksum, every item legal and above its predecessor). isomorphism classes: model-side lists (iso ops: all pre-flop classes, a prefix of the later streets) and counts; pre-flop and flop by the real IsomorphismIterator (+ turn and river in the thorough tier) against the Burnside polynomial, the published constants, an own orbit enumeration, and pairwise-distinct orbit keys. children: {nchild} random observations per street. distinct = (k, mask) with k >= 1 and at least k free cards, streets, observations.",
+        "deck={deck}. hands: {} masks leaving 0..12 free cards (random, packed against bit 51, packed at the bottom, alternating, some with junk above bit 51) x k=0..4 as full lists, k=5/6/7 for {n5}/{n6}/{n7} of them (a case costs ~C(52,k) steps whatever the mask); {ncases} random masks leaving 13..52 free cards x random k<=7 and the unmasked deck as count+order checksum; k in {{47..53,63}} (short walks against the 52-bit boundary) as counts. observations: streets {:?} complete (count, order checksum, every item legal and above its predecessor). isomorphism classes: model-side lists (iso ops: all pre-flop classes, a prefix of the later streets) and counts; pre-flop and flop by the real IsomorphismIterator (+ turn and river in the thorough tier) against the Burnside polynomial, the published constants, an own orbit enumeration, and pairwise-distinct orbit keys. children: {nchild} random observations per street. entry points: nth after j consumed items (j mid-pocket, k up to 3.5 pockets), skip, step_by, skip+step_by sharding, chunking by nth, by_ref+take, last, count on HandIterator / ObservationIterator / IsomorphismIterator / children against the indexable enumerated list; obsnth model lines. distinct = (k, mask) with k >= 1 and at least k free cards, streets, observations.",
         masks.len(), streets);
     run.finish();
 }
